@@ -9,6 +9,7 @@ import (
 	"github.com/btcsuite/btcd/btcec/v2"
 	"github.com/btcsuite/btcd/btcec/v2/schnorr"
 	"github.com/btcsuite/btcd/btcec/v2/schnorr/musig2"
+	"github.com/btcsuite/btcd/chainhash/v2"
 	"verifharness/core"
 )
 
@@ -387,6 +388,107 @@ func genMusig(g *core.Gen) {
 			hs = append(hs, hx(b))
 		}
 		g.Case("nonceagg:"+class, true, "C11 nonceagg "+strings.Join(hs, ","))
+	}
+	// a plain tweak that cancels the aggregate key of a single signer (Q = a*d*G with a = H(L || P)):
+	// the tweaked key is the point at infinity and must be rejected
+	for i := 0; i < g.N(6, 60); i++ {
+		d := randPriv(r)
+		pk := pubOf(d)
+		comp := pk.SerializeCompressed()
+		l := chainhash.TaggedHash(musig2.KeyAggTagList, comp)
+		a := chainhash.TaggedHash(musig2.KeyAggTagCoeff, append(append([]byte{}, l[:]...), comp...))
+		ad := new(big.Int).Mul(new(big.Int).SetBytes(a[:]), d)
+		ad.Mod(ad, curveN)
+		neg := new(big.Int).Sub(curveN, ad)
+		g.Case("keyagg:inf-tweak", true, fmt.Sprintf("C11 keyagg %d %x p:%x", r.Intn(2), comp, b32(neg)))
+		// x-only variant: one of the two cancels depending on the parity of Q
+		g.Case("keyagg:inf-tweak", true, fmt.Sprintf("C11 keyagg %d %x x:%x", r.Intn(2), comp, b32(neg)))
+		g.Case("keyagg:inf-tweak", true, fmt.Sprintf("C11 keyagg %d %x x:%x", r.Intn(2), comp, b32(ad)))
+		g.Case("keyagg:inf-tweak", true, fmt.Sprintf("C11 keyagg %d %x p:%x,p:%x", r.Intn(2), comp, b32(big.NewInt(5)), b32(add(neg, -5))))
+	}
+	// partial signature verification on its own: a real session's data with one field changed
+	for i := 0; i < g.N(25, 600); i++ {
+		n := r.Intn(4) + 1
+		ds := signerSet(r, n)
+		sort := r.Bool()
+		tws := randTweaks(r, 2)
+		if strings.Contains(tws, hx(b32(curveN))) {
+			tws = "-"
+		}
+		tw := parseTweakOpt(tws)
+		msg := msg32(randMsg(r))
+		var keys []*btcec.PublicKey
+		var privs []*btcec.PrivateKey
+		var nonces []*musig2.Nonces
+		var pubNonces [][musig2.PubNonceSize]byte
+		var ks []string
+		for _, d := range ds {
+			priv, pub := btcec.PrivKeyFromBytes(b32(d))
+			privs, keys = append(privs, priv), append(keys, pub)
+			ks = append(ks, hx(pub.SerializeCompressed()))
+			nn, err := musig2.GenNonces(musig2.WithCustomRand(bytes.NewReader(r.Bytes(32))), musig2.WithPublicKey(pub))
+			if err != nil {
+				panic(err)
+			}
+			nonces, pubNonces = append(nonces, nn), append(pubNonces, nn.PubNonce)
+		}
+		aggN, err := musig2.AggregateNonces(pubNonces)
+		if err != nil {
+			continue
+		}
+		who := r.Intn(n)
+		ps, err := musig2.Sign(nonces[who].SecNonce, privs[who], aggN, copyKeys(keys), msg, tw.sign(sort)...)
+		if err != nil {
+			continue
+		}
+		sb := ps.S.Bytes()
+		sv := new(big.Int).SetBytes(sb[:])
+		pn := append([]byte{}, pubNonces[who][:]...)
+		an := append([]byte{}, aggN[:]...)
+		pk := keys[who].SerializeCompressed()
+		keyList := strings.Join(ks, ",")
+		sortS, m := "0", append([]byte{}, msg[:]...)
+		if sort {
+			sortS = "1"
+		}
+		class := "valid"
+		switch r.Intn(10) {
+		case 0:
+			sv = new(big.Int).Mod(add(sv, 1), curveN)
+			class = "s+1"
+		case 1:
+			sv = new(big.Int).Mod(new(big.Int).Sub(curveN, sv), curveN)
+			class = "neg-s"
+		case 2:
+			pn[0] ^= 1
+			class = "nonce-negated"
+		case 3:
+			pn[33*r.Intn(2)] = 0
+			class = "nonce-00"
+		case 4:
+			an[33*r.Intn(2)] = 0
+			class = "aggnonce-00"
+		case 5:
+			pk = pubOf(randPriv(r)).SerializeCompressed()
+			class = "other-key"
+		case 6:
+			m[r.Intn(32)] ^= 0x40
+			class = "other-msg"
+		case 7:
+			if sortS == "1" {
+				sortS = "0"
+			} else {
+				sortS = "1"
+			}
+			class = "sort-flag"
+		case 8:
+			tws = randTweaks(r, 2)
+			if strings.Contains(tws, hx(b32(curveN))) {
+				tws = "-"
+			}
+			class = "other-tweaks"
+		}
+		g.Case("pverify:"+class, true, fmt.Sprintf("C11 pverify %x %x %x %s %x %x %s %s", b32(sv), pn, an, keyList, pk, m, sortS, tws))
 	}
 	// full sessions
 	for i := 0; i < g.N(40, 1500); i++ {
